@@ -24,7 +24,8 @@
    expression is typed by the specification and annotated with that type; every value meets a slot
    of exactly its own type, or a slot of type any (wrapped) -- i.e. no conversion of a literal to a
    DIFFERENT type ([1] into []any, [] into []num inside an expression, [[1]] + [[]]), except the
-   empty literal a declaration is initialised with.  Those conversions are where the models are
+   empty literal [] / {} itself as the value of a declaration, an assignment or a return
+   ( x:[]num ;  x = [] ).  Those conversions are where the models are
    compared by witnesses below. *)
 From Coq Require Import List Bool String.
 From EvyV Require Import Base Ast Sem Static SemSound StaticTypes StaticImpl.
@@ -171,6 +172,20 @@ Theorem C02_types_ctx_assign_to : forall F G tg st e,
 Proof. exact assign_to_spec_accepts. Qed.
 Print Assumptions C02_types_ctx_assign_to.
 
+(* the empty literal retyped to the slot's type ( x = []  with x:[]num ): the source expression is
+   [] / {} , which the specification converts *)
+Theorem C02_types_ctx_zero : forall G t e st, zero_lit t e = true -> sty_of t = Some st ->
+  exists e', erase G e = Some e' /\ exists shown, Sp.spec_check (S.CAssign st) e' = Sp.SAccept st shown.
+Proof. exact zero_spec_accepts. Qed.
+Print Assumptions C02_types_ctx_zero.
+
+(* an assignment to a target chain is judged like an assignment to a variable of the chain's type *)
+Theorem C02_types_ctx_assign_to_as_assign : forall G tg st root steps e',
+  target_of G tg = Some (root, steps) -> target_sty G tg = Some st ->
+  Sp.spec_check (S.CAssignTo root steps) e' = Sp.spec_check (S.CAssign st) e'.
+Proof. exact assign_to_as_assign. Qed.
+Print Assumptions C02_types_ctx_assign_to_as_assign.
+
 (* ... and such a target is typed the same by the expression rules, its last step being an array or
    map step (what Static asks of a target) *)
 Theorem C02_types_target_chain : forall G tg st, target_sty G tg = Some st ->
@@ -314,6 +329,12 @@ Theorem C02_types_impl_ctx_assign_to : forall F G tg st a e root steps,
 Proof. exact impl_ctx_assign_to. Qed.
 Print Assumptions C02_types_impl_ctx_assign_to.
 
+Theorem C02_types_impl_ctx_zero : forall t e st G, zero_lit t e = true -> sty_of t = Some st ->
+  exists e' shown, erase G e = Some e' /\
+    T.check (S.CAssign st) e' = T.Accept (T.fixed_type (T.embed st)) shown.
+Proof. exact impl_ctx_zero. Qed.
+Print Assumptions C02_types_impl_ctx_zero.
+
 (* ---------- non-vacuity ---------- *)
 Local Open Scope string_scope.
 (* the example programs of C02 (loop, element assignment, any-wrapped arguments, generic built-in
@@ -325,7 +346,7 @@ Example C02_types_ex_programs :
   s1_program C02.ex_ok = true /\ s1_program C02.ex_funcs = true.
 Proof. vm_compute. repeat split; reflexivity. Qed.
 
-(*  a:[]num  /  a = [1] + a[0:1]  /  m:{}[]num  /  m.k = a  /  m["k"][0] = 2  /  x:any  /  x = a
+(*  a:[]num  /  a = []  /  a = [1] + a[0:1]  /  m:{}[]num  /  m.k = a  /  m["k"][0] = 2  /  x:any  /  x = a
     if (len a) > 0 and m.k == a / print a[0] m / end  *)
 Definition ex_ctx : program :=
   let a := EVar (s_ "a") (TArr TNum) in
@@ -333,6 +354,7 @@ Definition ex_ctx : program :=
   {| p_funcs := []; p_handlers := [];
      p_stmts :=
        [SDecl (s_ "a") (TArr TNum) (EArr (TArr TNum) []);
+        SAssign a (EArr (TArr TNum) []);
         SAssign a (EBin BPlus (TArr TNum) (EArr (TArr TNum) [C02.n1]) (ESlice (TArr TNum) a (Some C02.n0) (Some C02.n1)));
         SDecl (s_ "m") (TMap (TArr TNum)) (EMap (TMap (TArr TNum)) []);
         SAssign (EDot (TArr TNum) m (s_ "k")) a;
